@@ -190,23 +190,25 @@ Carries ==
     XlsxMetadata |-> Fields \ {"subject"},
     HtmlMetadata |-> Fields \ {"subject"},
     EpubMetadata |-> Fields \ {"keywords"},
+    XlsMetadata |-> {"title", "author", "subject"},
     PdfMetadata |-> {}, FileMetadataInterface |-> {} ]
 \* the metadata type each generated format must come back with
 MetaTypeOf ==
   [ docx |-> "DocxMetadata", pptx |-> "PptxMetadata", xlsx |-> "XlsxMetadata", rtf |-> "RtfMetadata",
     odt |-> "OpenDocumentMetadata", odp |-> "OpenDocumentMetadata", ods |-> "OpenDocumentMetadata",
     odg |-> "OpenDocumentMetadata", html |-> "HtmlMetadata", mhtml |-> "HtmlMetadata",
-    epub |-> "EpubMetadata", pdf |-> "PdfMetadata", txt |-> "FileMetadataInterface",
+    epub |-> "EpubMetadata", pdf |-> "PdfMetadata", xls |-> "XlsMetadata", txt |-> "FileMetadataInterface",
     md |-> "FileMetadataInterface", csv |-> "FileMetadataInterface", tsv |-> "FileMetadataInterface",
     json |-> "FileMetadataInterface" ]
 \* which properties the WRITER of a format stores at all (mbv/writers): html has no subject element,
-\* the OPF writer no keywords, the PDF /Info writer no description
+\* the OPF writer no keywords, the PDF /Info writer no description, the BIFF writer none.
+\* A format that is in neither table (added to mbv/docrun.py later) is replayed with every property DON'T-CARE.
 Stores ==
   [ f \in DOMAIN MetaTypeOf |->
       CASE f \in {"html", "mhtml"} -> Fields \ {"subject"}
         [] f = "epub" -> Fields \ {"keywords"}
         [] f = "pdf" -> Fields \ {"description"}
-        [] f \in {"txt", "md", "csv", "tsv", "json"} -> {}
+        [] f \in {"txt", "md", "csv", "tsv", "json", "xls"} -> {}
         [] OTHER -> Fields ]
 
 Blank == {9, 10, 13, 32}
